@@ -11,6 +11,11 @@ theorems PV.Props.C02, tie:
       maximal schedules covering EVERY transition is replayed on the C side.
       RANDOM: 8-16 threads, long programs, random spurious wake-ups (the C side schedules itself,
       the chosen schedule is then replayed on both sides).
+      FAILING PRIMITIVES: op `fail T` = the p_mutex_lock / p_mutex_unlock / p_cond_variable_wait / signal / broadcast call
+      thread T is suspended at returns FALSE (model: PV.RWLock.failStep); state graphs with up to 3 failing calls per path,
+      one directed schedule per failure branch, random schedules with failures; `free` / `newfail K` = p_rwlock_free on a live
+      lock / p_rwlock_new with allocation K failing; sticky oracle !INCONSISTENT (counter fields = user-level holders whenever
+      the internal mutex is free).
   posix: pthread_rwlock_* wrapped at link time with scripted return codes vs. the mapping model.
   thorough: real threads under clang-14 -fsanitize=thread for both implementations (supporting).
 """
@@ -59,8 +64,8 @@ def spec_view(op, line):
 # --------------------------------------------------------------------------------------------
 # exhaustive: state graph from the model driver, transition-covering set of maximal schedules
 
-def explore(progs, max_states=400000):
-    text = "".join(l + "\n" for l in header(progs)[:-1]) + "explore %d\n" % max_states
+def explore(progs, max_states=400000, fails=0, nospec=False):
+    text = "".join(l + "\n" for l in header(progs, nospec)[:-1]) + ("explore %d %d\n" % (max_states, fails) if fails else "explore %d\n" % max_states)
     rc, out, err = pv.run_model("rwlock", text)
     if rc != 0:
         raise RuntimeError("explore failed: " + err[-300:])
@@ -184,6 +189,67 @@ def exhaustive_mix(exe, codes):
     return (ns, nt, trunc, len(scheds), nlines, len(dead), len(stuck)), ([] if clean else cases), cases[:1]
 
 
+def exhaustive_fail_mix(exe, codes, fails, nospec=False):
+    """as exhaustive_mix, on the state graph that also contains up to `fails` FAILING primitive calls per path
+    (p_mutex_lock / p_mutex_unlock / p_cond_variable_wait / signal / broadcast returning FALSE: op `fail T`).
+    Deadlock states are expected here (a failed p_mutex_unlock wedges the lock, a failed signal loses a wake-up);
+    the safety flags (!UNSAFE !TRYBLOCK !INCONSISTENT) are not."""
+    progs = [prog_of(c) for c in codes]
+    edges, finals, dead, (ns, nt, trunc) = explore(progs, fails=fails, nospec=nospec)
+    scheds, stuck = covering_schedules(edges, finals, dead, ns)
+    h = header(progs, nospec)
+    cases = [h + s for s in scheds]
+    text = "".join("".join(l + "\n" for l in c) + "reset\n" for c in cases)
+    crc, cout, cerr, mrc, mout, merr = run_pair(exe, text)
+    nlines = sum(len(c) + 1 for c in cases)
+    clean = (crc == 0 and mrc == 0 and cout == mout and "SPECDIFF" not in mout and len(cout.splitlines()) == nlines
+             and (nospec or ("!UNSAFE" not in cout and "!INCONSISTENT" not in cout and "!TRYBLOCK" not in cout))
+             and "not-enabled" not in cout and "bad-op" not in cout and not stuck)
+    nfail = sum(1 for c in cases for l in c if l.startswith("fail "))
+    return (ns, nt, trunc, len(scheds), nlines, len(dead), len(stuck), nfail), ([] if clean else cases), cases[-1:]
+
+
+def lifecycle_cases():
+    """p_rwlock_free of the general model on a live lock (idle, held, with waiters) and p_rwlock_new with each of its
+    four allocations failing: which parts are released"""
+    nf = ["newfail %d" % k for k in range(4)]
+    cases = [nf + header([prog_of("R")]) + ["free"] + nf,
+             header([prog_of("R")]) + ["run 0", "run 0", "free"],
+             header([prog_of("W"), prog_of("R"), prog_of("W")]) + ["run 0", "run 0", "run 1", "run 1", "run 2", "run 2", "newfail 2", "free", "newfail 3"],
+             header([prog_of("RW")]) + ["run 0"] * 8 + ["free", "reset"] + nf + header([prog_of("W")]) + ["run 0", "fail 0", "free"]]
+    return cases
+
+
+def fail_site_cases():
+    """one directed schedule per failure branch of prwlock-general.c (each `fail` hits a different call site)"""
+    c = []
+    for code in "RWrw":
+        acq, rel = ROUND[code]
+        h = header([prog_of(code + code)])
+        c.append(h + ["fail 0", "run 0", "run 0", "run 0", "run 0"])                  # p_mutex_lock of the acquire fails
+        c.append(h + ["run 0", "fail 0"])                                              # final p_mutex_unlock after the grant
+        c.append(h + ["run 0", "run 0", "fail 0"])                                     # p_mutex_lock of the unlock call
+        c.append(h + ["run 0", "run 0", "run 0", "fail 0"])                            # final p_mutex_unlock of the unlock call
+    # trylock not grantable, its p_mutex_unlock fails (result of the unlock ignored)
+    c.append(header([prog_of("W"), prog_of("r")]) + ["run 0", "run 0", "run 1", "fail 1"])
+    c.append(header([prog_of("R"), prog_of("w")]) + ["run 0", "run 0", "run 1", "fail 1"])
+    # p_cond_variable_wait fails at once: reader behind a writer, writer behind a reader / a writer; then the holder leaves
+    c.append(header([prog_of("W"), prog_of("RR")]) + ["run 0", "run 0", "run 1", "fail 1", "run 1", "run 0", "run 0", "run 0", "run 1", "run 1", "run 1", "run 1"])
+    c.append(header([prog_of("R"), prog_of("WW")]) + ["run 0", "run 0", "run 1", "fail 1", "run 1", "run 0", "run 0", "run 1", "run 1", "run 1", "run 1"])
+    c.append(header([prog_of("W"), prog_of("WR")]) + ["run 0", "run 0", "run 1", "fail 1", "run 1", "run 0", "run 0", "run 1", "run 1", "run 1", "run 1"])
+    # wait fails on the SECOND round of the loop (after a spurious wake-up)
+    c.append(header([prog_of("W"), prog_of("R")]) + ["run 0", "run 0", "run 1", "run 1", "spur 1", "run 0", "run 1", "fail 1", "run 1", "run 0", "run 0"])
+    c.append(header([prog_of("R"), prog_of("W")]) + ["run 0", "run 0", "run 1", "run 1", "spur 1", "run 1", "fail 1", "run 1", "run 0", "run 0", "run 0"])
+    # signal of reader_unlock fails (a writer waits): lost wake-up; signal / broadcast of writer_unlock fail
+    c.append(header([prog_of("R"), prog_of("W")]) + ["run 0", "run 0", "run 1", "run 1", "run 0", "fail 0", "run 0", "spur 1", "run 1", "run 1", "run 1", "run 1"])
+    c.append(header([prog_of("W"), prog_of("W")]) + ["run 0", "run 0", "run 1", "run 1", "run 0", "fail 0", "run 0", "spur 1", "run 1", "run 1", "run 1", "run 1"])
+    c.append(header([prog_of("W"), prog_of("R"), prog_of("R")]) + ["run 0", "run 0", "run 1", "run 1", "run 2", "run 2", "run 0", "fail 0", "run 0", "spur 1", "run 1", "run 1", "run 1", "run 1"])
+    # the zero-reader-count path of reader_unlock (undisciplined), with its p_mutex_unlock failing: TRUE all the same
+    c.append([l for l in header([["runlock", "runlock"], ["rlock"]], nospec=True)] + ["run 0", "run 0", "run 0", "fail 0", "run 1", "fail 1"])
+    c.append([l for l in header([["runlock"], ["rlock", "runlock"]], nospec=True)] + ["run 1", "run 1", "run 1", "run 1", "run 0", "fail 0"])
+    return c
+
+
 # --------------------------------------------------------------------------------------------
 # directed: many simultaneous readers (the counter fields are 15 bits wide: "any number of readers")
 
@@ -212,10 +278,11 @@ def side_ops_cases():
 # --------------------------------------------------------------------------------------------
 # random: the harness schedules itself, the schedule is replayed on both sides
 
-def auto_schedule(exe, progs, seed, nsteps, spur_pct, nospec=False, prefix=(), middle=()):
-    """prefix: ops before the programs; middle: directed ops after `start`, before the harness takes over"""
+def auto_schedule(exe, progs, seed, nsteps, spur_pct, nospec=False, prefix=(), middle=(), fail_pm=0):
+    """prefix: ops before the programs; middle: directed ops after `start`, before the harness takes over;
+    fail_pm: per-mille probability of a failing primitive call (`fail T`) per step"""
     h = list(prefix) + header(progs, nospec) + list(middle)
-    text = "".join(l + "\n" for l in h) + "auto %d %d %d\n" % (seed, nsteps, spur_pct)
+    text = "".join(l + "\n" for l in h) + ("auto %d %d %d %d\n" % (seed, nsteps, spur_pct, fail_pm) if fail_pm else "auto %d %d %d\n" % (seed, nsteps, spur_pct))
     rc, out, err = pv.run_proc([exe], text, 300)
     lines = out.splitlines()[len(h):]
     sched, verdict = [], "crash"
@@ -227,7 +294,7 @@ def auto_schedule(exe, progs, seed, nsteps, spur_pct, nospec=False, prefix=(), m
     return h + sched, verdict, rc, err
 
 
-def random_progs(rng, nthreads, max_rounds, disciplined=True):
+def random_progs(rng, nthreads, max_rounds, disciplined=True, nested=True):
     progs = []
     style = rng.choice(["mixed", "writer-heavy", "reader-heavy", "try-heavy"])
     weights = {"mixed": [3, 3, 1, 1, 1, 1, 1, 1], "writer-heavy": [1, 6, 0, 1, 0, 1, 1, 1], "reader-heavy": [6, 1, 1, 0, 2, 1, 0, 0],
@@ -236,7 +303,7 @@ def random_progs(rng, nthreads, max_rounds, disciplined=True):
         n = rng.randrange(1, max_rounds + 1)
         if disciplined:
             p = []
-            for ch in rng.choices("RWrwabcd", weights, k=n):
+            for ch in rng.choices("RWrwabcd" if nested else "RWrw", weights if nested else weights[:4], k=n):
                 p += ROUND[ch]
         else:
             p = [rng.choice(OPS) for _ in range(2 * n)]
@@ -253,6 +320,7 @@ def posix_cases(rng, n):
     for op in OPS:
         cases.append(["call %s %d" % (op, c) for c in codes] + ["null " + op, "ident"])
     cases.append(["new %d" % c for c in codes] + ["ident"])
+    cases.append(["free %d" % c for c in codes] + ["ident", "call rlock 0", "free 16", "call runlock 0"])
     cases.append(["ident", "ident"])
     for _ in range(n):
         c = []
@@ -262,7 +330,9 @@ def posix_cases(rng, n):
                 c.append("call %s %d" % (rng.choice(OPS), rng.choice(codes + [rng.randrange(-200, 200)])))
             elif r < 0.91:
                 c.append("null " + rng.choice(OPS))
-            elif r < 0.94:
+            elif r < 0.93:
+                c.append("free %d" % rng.choice(codes))
+            elif r < 0.95:
                 c.append("ident")
             else:
                 c.append("new %d" % rng.choice(codes))
@@ -402,7 +472,50 @@ def run(chk):
             sizes += [(128, "rtry"), (256, "rtry"), (256, "rlock"), (257, ["rtry", "rlock"]), (300, "rtry")]
         directed = side_ops_cases() + [many_readers(exe, n, acq, rng.randrange(1, 2**31), OPS if k == 0 else ()) for n, acq in sizes for k in range(2)]
         chk.cov["directed"] = {"many_simultaneous_readers": [n for n, _ in sizes], "second_lock_object_and_NULL_argument_cases": 2}
-        f1, c1, t1 = diffrun.campaign(chk, fam, corpus + directed + slow[:400], proof_ok, detail, signature_of, "C02", batch=1)
+        # ---- failing primitives: exhaustive small scope (state graph with up to F failing calls per path)
+        t0 = time.time()
+        fmix = [(m, 3) for m in mixes(1, 1)] + [(m, 2) for m in mixes(1, 2)] + [(m, 3 if thorough else 2) for m in mixes(2, 1)]
+        m22, m31 = mixes(2, 2), mixes(3, 1)
+        rng.shuffle(m22)
+        rng.shuffle(m31)
+        fmix += [(m, 1) for m in (m22 if thorough else m22[:30])] + [(m, 2 if thorough else 1) for m in (m31 if thorough else m31[:10])]
+        fmix += [(["RW", "WR"], 2), (["WW", "R", "R"], 1 + thorough), (["R", "W", "W"], 2)]
+        # nested rounds: a failed outer acquire leaves an undisciplined rest (the inner trylock and both unlocks still run): correspondence only
+        fmix += [(m, 1, True) for m in mixes(2, 1, "abcd")]
+        fst = {"program_mixes": 0, "states": 0, "transitions": 0, "schedules": 0, "steps": 0, "fail_ops": 0, "deadlock_states": 0}
+        fslow = []
+        fsamples = []
+        with ThreadPoolExecutor(max(2, pv.NCPU)) as ex:
+            for (codes, nf), (stt, bad, smp) in zip([a[:2] for a in fmix], ex.map(lambda a: exhaustive_fail_mix(exe, *a), fmix)):
+                ns, nt, trunc, nsched, nlines, ndead, nstuck, nfail = stt
+                fst["program_mixes"] += 1
+                fst["states"] += ns
+                fst["transitions"] += nt
+                fst["schedules"] += nsched
+                fst["steps"] += nlines
+                fst["fail_ops"] += nfail
+                fst["deadlock_states"] += ndead
+                st.truncated += 1 if trunc else 0
+                chk.cov["evaluations"] += nsched
+                if not bad:
+                    chk.cov["traces_validated_against_impl"] += nsched
+                    for k in range(nsched):
+                        chk.distinct.add((tuple(codes), "fail", nf, k))
+                else:
+                    fslow += bad
+                if smp and len(fsamples) < 1:
+                    fsamples.append(smp[0])
+        for s_ in fsamples:
+            chk.sample(s_[:60], cap=4)
+        fst["seconds"] = round(time.time() - t0, 1)
+        fst["scope"] = ("failing primitive calls (p_mutex_lock / p_mutex_unlock / p_cond_variable_wait / signal / broadcast return FALSE, op `fail T`): "
+                        "1x1 mixes <= 3 failures per path, 1x2 <= 2, 2x1 <= %d, %s 2x2 mixes <= 1, %s 3x1 mixes, nested rounds 2x1 <= 1 (correspondence only); every transition replayed on the C code"
+                        % (3 if thorough else 2, "all" if thorough else "30", "all" if thorough else "10"))
+        chk.cov["exhaustive_failing_primitives"] = fst
+        directed += lifecycle_cases() + fail_site_cases()
+        chk.cov["directed"]["lifecycle (p_rwlock_free on a live lock, p_rwlock_new with allocation K failing)"] = len(lifecycle_cases())
+        chk.cov["directed"]["one schedule per failure branch"] = len(fail_site_cases())
+        f1, c1, t1 = diffrun.campaign(chk, fam, corpus + directed + slow[:400] + fslow[:400], proof_ok, detail, signature_of, "C02", batch=1)
         found, corr, thm = found or f1, corr or c1, thm or t1
     else:
         pv.log("model driver does not build: C-side search only")
@@ -430,12 +543,27 @@ def run(chk):
         progs, _ = random_progs(rng, rng.randrange(1, 5), 4, disciplined=False)
         case, verdict, rc, err = auto_schedule(exe, progs, rng.randrange(1, 2**31), 5000, rng.choice([0, 10, 40]), nospec=True)
         ucases.append(case)
+    # the same with failing primitive calls sprinkled in (safety flags still apply; deadlocks are expected)
+    fcases = []
+    for i in range(600 if thorough else 80):
+        progs, style = random_progs(rng, rng.randrange(2, 10), 6, nested=False)
+        case, verdict, rc, err = auto_schedule(exe, progs, rng.randrange(1, 2**31), 20000, rng.choice([0, 5, 30]), fail_pm=rng.choice([10, 40, 150]))
+        chk.bump("random-with-failures:" + style)
+        fcases.append(case)
+    for i in range(300 if thorough else 40):
+        progs, _ = random_progs(rng, rng.randrange(1, 5), 4, disciplined=False)
+        case, verdict, rc, err = auto_schedule(exe, progs, rng.randrange(1, 2**31), 5000, rng.choice([0, 10, 40]), nospec=True, fail_pm=rng.choice([30, 100, 250]))
+        fcases.append(case)
+    chk.cov["random_failing_primitives"] = {"schedules": len(fcases), "fail_ops": sum(1 for c in fcases for l in c if l.startswith("fail ")),
+                                            "steps": sum(len(c) for c in fcases)}
     chk.cov["random"] = {"disciplined_schedules": nrand, "threads": "8-16", "auto_verdicts": verdicts,
                          "steps": sum(len(c) for c in rcases), "undisciplined_schedules": len(ucases), "seconds": round(time.time() - t0, 1)}
     if driver_ok:
         f2, c2, t2 = diffrun.campaign(chk, fam, rcases, proof_ok, detail, signature_of, "C02 random", batch=20)
         f3, c3, t3 = diffrun.campaign(chk, fam, ucases, proof_ok, detail, signature_of, "C02 undisciplined programs (correspondence only)", batch=50)
         found, corr, thm = found or f2 or f3, corr or c2 or c3, thm or t2 or t3
+        f5, c5, t5 = diffrun.campaign(chk, fam, fcases, proof_ok, detail, signature_of, "C02 random schedules with failing primitive calls", batch=20)
+        found, corr, thm = found or f5, corr or c5, thm or t5
 
     # ---- posix mapping
     if driver_ok:
@@ -458,13 +586,18 @@ def run(chk):
     chk.cov["rule"] = ("schedules over programs of lock/unlock rounds (R W tryR tryW): exhaustive part = for each small program mix the whole reachable state graph of the model "
                        "(spurious wake-ups and every signal choice included) and a set of maximal schedules covering every transition, each replayed step by step on the C code; "
                        "random part = 8-16 threads, up to %d rounds each, spurious wake-up probability 0-50%%, schedule chosen by the harness and replayed on both sides; "
-                       "plus undisciplined small programs (correspondence only) and scripted pthread return codes for the posix mapping. "
+                       "plus undisciplined small programs (correspondence only), the same three kinds with failing primitive calls (`fail T`: state graphs with a bounded number of failures per path, "
+                       "a directed schedule per failure branch, random), p_rwlock_free / failing p_rwlock_new, and scripted pthread return codes for the posix mapping. "
                        "distinct = hash of the op file (program mix for the exhaustive part); non-trivial = more than one op" % (40 if thorough else 16))
     chk.cov["exhaustive"] = False
-    chk.assumptions += ["pthread mutex / condition variable satisfy POSIX (Mesa semantics: wait atomically releases the mutex, signal wakes at most one waiter, spurious wake-ups allowed); p_mutex_lock / p_cond_variable_wait on valid objects return TRUE",
+    chk.assumptions += ["pthread mutex / condition variable satisfy POSIX (Mesa semantics: wait atomically releases the mutex, signal wakes at most one waiter, spurious wake-ups allowed); for the liveness half (no deadlock, termination) "
+                        "the primitives never fail; the safety half (exclusion, counter refinement, FALSE = nothing acquired) is proved and run WITH failing primitive calls (op `fail T`), assuming a failed call has no effect "
+                        "(a failed p_mutex_unlock leaves the mutex owned, a failed wait returns at once still owning it, a failed signal wakes nobody)",
+                        "client convention under failures: a thread stops after an unlock call that failed at its p_mutex_lock (it still holds) and after any call that met a failed p_mutex_unlock "
+                        "(it owns the internal mutex for ever: its next call would self-deadlock); nested rounds (trylock while holding) with failures are run as correspondence only",
                         "fewer than 2^15 threads use one lock simultaneously (field width of the packed counters; same limit in the C code)",
                         "programs are disciplined: every acquired lock is released by the same thread before its next blocking acquire (a trylock may be attempted while holding); unlock only of a held lock; a failed trylock skips the unlock",
-                        "allocation failure in p_rwlock_new is C18's business (note: the general model's p_rwlock_new continues after a failed sub-allocation: missing return NULL)",
+                        "allocation failure in p_rwlock_new: its four failure exits are run by `newfail K` (NULL returned, exactly the parts allocated before are released); the allocator-level enumeration is C18's business",
                         "posix model: pthread_rwlock_* is a trusted abstract machine; only the return-code mapping of prwlock-posix.c is checked"]
     return finish(chk)
 
